@@ -256,8 +256,27 @@ def _sampling_points(cfg, rng, S):
     nd = len(S.shape)
     npts = opt(cfg, rng, 'npts', [1, 2, 4])
     rep = opt(cfg, rng, 'repeat', [False, True])
+    # structured index patterns, not only random ones: an ascending /
+    # descending contiguous run along the last axis, all points in order
+    pattern = opt(cfg, rng, 'pattern', ['random', 'random', 'run', 'rev',
+                                        'all'])
     g = data(cfg, 'pts')
     pts = [list(int(v) for v in g.integers(0, s, npts)) for s in S.shape]
+    if pattern in ('run', 'rev'):
+        n_last = S.shape[-1]
+        length = min(n_last, max(2, npts))
+        start = int(g.integers(0, n_last - length + 1))
+        run = list(range(start, start + length))
+        if pattern == 'rev':
+            run = run[::-1]
+        pts = [[int(p[0])] * length for p in pts[:-1]] + [run]
+        rep = False
+    elif pattern == 'all':
+        import itertools
+        allp = list(itertools.product(*[range(s_) for s_ in S.shape]))[:12]
+        pts = [[int(p[a]) for p in allp] for a in range(nd)]
+        rep = False
+    npts = len(pts[0])
     if rep and npts > 1:
         for p in pts:
             p[-1] = p[0]
@@ -266,7 +285,7 @@ def _sampling_points(cfg, rng, S):
     return pts
 
 
-@recipe('Sampling', fam='tensor')
+@recipe('Sampling', fam='tensor', weight=3)
 def _sampling(cfg, rng):
     S = space(cfg, rng, want='real')
     variant = opt(cfg, rng, 'variant', ['point_eval', 'integrate'])
@@ -274,7 +293,7 @@ def _sampling(cfg, rng):
                                   variant=variant)
 
 
-@recipe('WeightedSumSampling', fam='tensor')
+@recipe('WeightedSumSampling', fam='tensor', weight=2)
 def _wsampling(cfg, rng):
     S = space(cfg, rng, want='real')
     variant = opt(cfg, rng, 'variant', ['char_fun', 'dirac'])
@@ -342,8 +361,25 @@ def _pso(cfg, rng):
             else:
                 row.append(None)
         rows.append(row)
-    return o.ProductSpaceOperator(rows, domain=o.ProductSpace(S, nc),
-                                  range=o.ProductSpace(S, nr))
+    dom, ran = o.ProductSpace(S, nc), o.ProductSpace(S, nr)
+    if opt(cfg, rng, 'build', ['lists', 'lists', 'coo_shuffled', 'coo_dup']) \
+            != 'lists':
+        # COO container with entries in shuffled order (documented as
+        # allowed), optionally with a duplicate (i, j) entry (summed)
+        from odl.util.sparse import COOMatrix
+        ents = [(i, j, rows[i][j]) for i in range(nr) for j in range(nc)
+                if rows[i][j] is not None]
+        if not ents:
+            raise Reject('empty operator matrix')
+        if cfg['build'] == 'coo_dup':
+            ents.append(ents[0])
+        perm = data(cfg, 'coo').permutation(len(ents))
+        ents = [ents[k] for k in perm]
+        coo = COOMatrix([e[2] for e in ents],
+                        ([e[0] for e in ents], [e[1] for e in ents]),
+                        (nr, nc))
+        return o.ProductSpaceOperator(coo, domain=dom, range=ran)
+    return o.ProductSpaceOperator(rows, domain=dom, range=ran)
 
 
 @recipe('ComponentProjection', fam='pspace')
